@@ -478,15 +478,42 @@ def same_outcome(real, m):
 # --------------------------------------------------------------------------
 class Prop(Check):
     ID = "C01"
-    LEAN_MODULE = "TextxVerif.Tx.Build"
-    THEOREMS = []
+    LEAN_MODULE = "TextxVerif.Props.C01"
+    THEOREMS = ["Tx.C01_expr_partial", "Tx.C01_expr_accepts_iff", "Tx.C01_verdict_fuel_independent",
+                "Tx.Sim.sim", "Tx.Sim.emit_repr",
+                "Tx.C01_full_false_none_alternative", "Tx.C01_full_false_empty_list_alternative",
+                "Tx.C01_full_false_falsy_repetition", "Tx.C01_full_false_separator_kept",
+                "Tx.C01_full_false_comment_cache", "Tx.C01_full_false_ws_restore"]
     DRIVER = "Drivers/Tx.lean"
     QUICK_CASES = 400
     THOROUGH_CASES = 8000
     CASE_TIMEOUT = 20
-    RULE = ""
-    MODELLED = ""
-    ASSUMPTIONS = []
+    RULE = ("generated grammars (1-5 rules; common / abstract / match rules; = += *= ?=; string and regex matches; base types; "
+            "? * + # with separators and eolterm; & !; suppression; rule modifiers skipws/noskipws/ws; Comment rule; 60% repaired "
+            "into DocFragment, 30% free, 10% with one injected grammar error) x metamodel options (skipws, ws, auto_init_attributes, "
+            "use_regexp_group) x 9 candidate texts (6 derived from the grammar, 3 mutated) of which the runner keeps 4 (quick) / 6 "
+            "(thorough), preferring accepted texts with many objects; per kept text: real textX outcome vs Lean mirror (compile + "
+            "Arpeggio mirror + build) vs documented semantics Sem.eval; non-trivial = a text accepted with >= 2 objects or rejected "
+            "after at least one token")
+    MODELLED = ("hand-modelled: TextXVisitor / get_model_parser (Tx/Compile.lean), parse_tree_to_objgraph / _init_obj_attrs / default "
+                "processors (Tx/Build.lean), Arpeggio's interpreter (Peg/Arp.lean, dependency), the documented semantics "
+                "(Tx/Sem.lean), DocFragment (Tx/Doc.lean), Arpeggio with single call sites neutralised (Tx/Quirk.lean, classifier); "
+                "tie X: op compile (node table up to renumbering, rule kinds, attributes with class / mult / cont / ref; grammar "
+                "errors by class) and op load (outcome and object graph) on every case; token matching (string comparison, re.match "
+                "with Arpeggio's flags, regex group 1) is an input table computed with Python's re; float() and str(float()) of "
+                "matched literals are evaluated by the harness; not exhibited: link references, user classes, object processors, "
+                "ignore_case, autokwd, memoization (C19), positions (C06)")
+    ASSUMPTIONS = [
+        "Sem decisions where the docs are silent: a rule application that contributes nothing creates no object / value; an empty "
+        "regex match contributes nothing; a model whose top rule contributes nothing is ''; Comments are skipped also with "
+        "skipws off; eolterm removes \\n\\r from the active whitespace for the duration of the repetition; # takes each element "
+        "once, elements that can match nothing may be absent; a non-empty list as `name` is the documented hashability error",
+        "cases on which the pinned and the C02-repaired multiplicity walk differ (multSensitive) and texts whose abstract-rule "
+        "nodes mix match-rule children before the first object (c03) are not compared: they belong to C02 / C03",
+        "proved fragment: rule-free expressions over string matches with sequence / ordered choice / ? / * / + under DocFragment "
+        "(C01_expr_partial); everything else (suppression, separators, eolterm, #, predicates, regexes, rule references and "
+        "modifiers, Comment, model construction) is covered by correspondence + direct oracle only",
+    ]
 
     def gen(self, rng, n, tier):
         for i in range(n):
